@@ -111,6 +111,18 @@ pub(crate) fn execute_with_stream<'i>(
             });
         }
     }
+    #[cfg(aquavm_verif)]
+    if let Some([unvisited, unmapped]) = trace_ctx.verif_unclaimed_fold_lore_by_cause(fold_id) {
+        if unvisited.0 + unmapped.0 > 0 {
+            crate::verif_hooks::emit(crate::verif_hooks::Event::FoldUnclaimedLoreByCause {
+                fold_id,
+                unvisited_entries: unvisited.0,
+                unvisited_states: unvisited.1,
+                unmapped_entries: unmapped.0,
+                unmapped_states: unmapped.1,
+            });
+        }
+    }
     trace_to_exec_err!(trace_ctx.meet_fold_end(fold_id), fold_to_string)?;
     Ok(())
 }
